@@ -6,6 +6,9 @@ A prefix is three tokens `fam len hex` (hex = the 4 or 16 address octets).
 
   key fam len hex K                     register tableKey(prefix) = K (decimal uint64)
   src i a                               source i has address-string class a (views are given as classes)
+  mpdiff T                              → `u=<paths> w=<paths>`: Update.GetMultiBestPathDiff of the LAST ann / wd on table T
+  multi T fam len hex                   → the multipath set of the destination (`nil` when there is none)
+  mbests T                              → TableManager.GetBestMultiPathList, one set per destination, sorted
   adjdrop n T1 … Tn                     AdjRib.Drop on the families of tables T1 … Tn
   adjstale n T1 … Tn                    AdjRib.StaleAll on those families
   adjdropstale n T1 … Tn                AdjRib.DropStale on those families
@@ -35,6 +38,8 @@ structure Tab where
   adj : Bool
   d : Dests TDest
   accepted : Int
+  lastOld : List TPath := []
+  lastNew : List TPath := []
 
 structure St where
   reg : List Reg := []
@@ -99,7 +104,7 @@ def putTab (s : St) (t : Tab) : St := { s with tabs := t :: s.tabs.filter (·.id
 /-- the Adj-RIB tables as the model's multi-family Adj-RIB-In, and back -/
 def adjView (s : St) : AdjRibM := (s.tabs.filter (·.adj)).map (fun t => (t.id, (t.d, t.accepted)))
 
-def putAdj (s : St) (a : AdjRibM) : St := a.foldl (fun s x => putTab s ⟨x.1, true, x.2.1, x.2.2⟩) s
+def putAdj (s : St) (a : AdjRibM) : St := a.foldl (fun s x => putTab s { id := x.1, adj := true, d := x.2.1, accepted := x.2.2 }) s
 
 def parseQueries : Nat → List String → Option (List (Lookup × Pfx))
   | 0, [] => some []
@@ -122,7 +127,7 @@ def step (s : St) (ts : List String) : St × List String :=
   | "adjdrop" :: rest => (putAdj s (adjRibDrop (takeList rest).1 (adjView s)), [])
   | "adjstale" :: rest => (putAdj s (adjRibStaleAll (takeList rest).1 (adjView s)), [])
   | "adjdropstale" :: rest => (putAdj s (adjRibDropStale h (takeList rest).1 (adjView s)), [])
-  | ["new", t, mode] => (putTab s ⟨nat! t, mode == "1", [], 0⟩, [])
+  | ["new", t, mode] => (putTab s { id := nat! t, adj := mode == "1", d := [], accepted := 0 }, [])
   | ["ann", t, fam, len, hex, src, rid, rank, tag, rej] =>
     match findTab s (nat! t) with
     | none => (s, ["bad-op"])
@@ -133,7 +138,10 @@ def step (s : St) (ts : List String) : St × List String :=
       if tb.adj then
         let old := ((get h tb.d p).getD (adjOps.fresh p))
         (putTab s { tb with d := update adjOps h tb.d p op, accepted := tb.accepted + adjAccDelta old op }, [])
-      else (putTab s { tb with d := update locOps h tb.d p op }, [])
+      else
+        let d' := update locOps h tb.d p op
+        (putTab s { tb with d := d', lastOld := ((get h tb.d p).map (·.paths)).getD [],
+                            lastNew := ((get h d' p).map (·.paths)).getD [] }, [])
   | ["wd", t, fam, len, hex, src, rid, dropped] =>
     match findTab s (nat! t) with
     | none => (s, ["bad-op"])
@@ -143,7 +151,10 @@ def step (s : St) (ts : List String) : St × List String :=
       if tb.adj then
         let old := ((get h tb.d p).getD (adjOps.fresh p))
         (putTab s { tb with d := update adjOps h tb.d p op, accepted := tb.accepted + adjAccDelta old op }, [])
-      else (putTab s { tb with d := update locOps h tb.d p op }, [])
+      else
+        let d' := update locOps h tb.d p op
+        (putTab s { tb with d := d', lastOld := ((get h tb.d p).map (·.paths)).getD [],
+                            lastNew := ((get h d' p).map (·.paths)).getD [] }, [])
   | ["get", t, fam, len, hex] =>
     match findTab s (nat! t) with
     | none => (s, ["bad-op"])
@@ -152,6 +163,26 @@ def step (s : St) (ts : List String) : St × List String :=
       match get h tb.d p with
       | none => (s, ["nil"])
       | some d => (s, [destStr (p, d)])
+  | ["mpdiff", t] =>
+    match findTab s (nat! t) with
+    | none => (s, ["bad-op"])
+    | some tb =>
+      let r := mpDiff tb.lastOld tb.lastNew
+      (s, ["u=" ++ ",".intercalate (r.1.map pathStr) ++ " w=" ++ ",".intercalate (r.2.map pathStr)])
+  | ["multi", t, fam, len, hex] =>
+    match findTab s (nat! t) with
+    | none => (s, ["bad-op"])
+    | some tb =>
+      match get h tb.d (parsePfx fam len hex) with
+      | none => (s, ["nil"])
+      | some d => (s, ["m=" ++ ",".intercalate ((multiBest d.paths).map pathStr)])
+  | ["mbests", t] =>
+    match findTab s (nat! t) with
+    | none => (s, ["bad-op"])
+    | some tb =>
+      let l := (entries tb.d).map (fun e =>
+        if e.2.paths.isEmpty then "empty" else pfxShow e.1 ++ "=" ++ ",".intercalate ((multiBest e.2.paths).map pathStr))
+      (s, [s!"n={l.length} " ++ " ".intercalate (sortStr l)])
   | ["list", t] =>
     match findTab s (nat! t) with
     | none => (s, ["bad-op"])
